@@ -420,7 +420,19 @@ TCli ==
   /\ l' = l + 1 /\ cnt' = Bump({"cli"})
   /\ UNCHANGED <<pc, G, tcs, run, memo>>
 
-Next == \/ THist \/ TMulti \/ TCli \/ TGroup \/ TTc \/ TEnd \/ TRun \/ TPre \/ TCl0 \/ TCl1 \/ TCl2 \/ TTrie \/ TMin
+(***************************************************************************)
+(* C11 sweep: every non-ASCII scalar value alone, escaped                  *)
+(***************************************************************************)
+TEscSweep ==
+  /\ IsEvent("escsweep") /\ pc = "idle"
+  /\ LET bad == {i \in DOMAIN Ev.items :
+                  Ev.items[i][2] # <<<<0, 94>>>> \o EscTok(Ev.items[i][1], Ev.surr) \o <<<<0, 36>>>>}
+     IN IF bad = {} THEN TRUE
+        ELSE EmitH({"C11"}, "escape-token", Ev.h, Ev.items[CHOOSE i \in bad : TRUE][1], "")
+  /\ l' = l + 1 /\ cnt' = Bump({"escsweep-blocks"})
+  /\ UNCHANGED <<pc, G, tcs, run, memo>>
+
+Next == \/ TEscSweep \/ THist \/ TMulti \/ TCli \/ TGroup \/ TTc \/ TEnd \/ TRun \/ TPre \/ TCl0 \/ TCl1 \/ TCl2 \/ TTrie \/ TMin
         \/ TExpr \/ TSelfCheck \/ TFallback \/ TFinal \/ TOutPanic \/ TOut \/ TObs
 
 Spec == Init /\ [][Next]_vars
